@@ -1026,21 +1026,42 @@ def suite_words(tier, seed):
         bad = [r for r in rs if (r['dev'] == '{}' and not r['ok']) or (r['dev'] != '{}' and not r['violated'])]
         if bad:
             raise InfraError('MODEL-ERROR: SmallVecWords: %s' % json.dumps(bad))
+        # the slot-level model of the shifting helpers (Slots.tla): theorem for the repaired design, refuted for known-bad variants
+        msz, mcnt = (4, 3) if tier == 'quick' else (6, 4)
+
+        def slots(dev):
+            cfg = 'Slots_%s.cfg' % (dev.strip('{}"') or 'none')
+            with open(os.path.join(md, cfg), 'w') as f:
+                f.write('SPECIFICATION Spec\nCONSTANTS\n MaxSz = %d\n MaxCount = %d\n Dev = %s\nINVARIANT TheoremInv\nCHECK_DEADLOCK FALSE\n' % (msz, mcnt, dev))
+            rc, out, dt = vlib.tlc(md, 'Slots', cfg, workers=2, timeout=2400, heap='4g')
+            return dict(dev=dev, ok='No error has been found' in out, refuted='TheoremInv is equal to FALSE' in out)
+        ss = pmap(slots, ['{}', '{"F09"}', '{"shiftLeftTrait"}'], workers=3)
+        sbad = [r for r in ss if (r['dev'] == '{}' and not r['ok']) or (r['dev'] != '{}' and not r['refuted'])]
+        if sbad:
+            raise InfraError('MODEL-ERROR: Slots: %s' % json.dumps(sbad))
+        ninst = 0
+        for tr in (0, 1):
+            for sz in range(msz + 1):
+                ninst += sum((cnt + 1) for pos in range(sz + 1) for cnt in range(mcnt + 1)) + 2 * (sz + 1) + sum(sz - f for f in range(sz + 1))
+            ninst += sum(cnt + 1 for sz in range(msz + 1) for cnt in range(sz + 1, sz + mcnt + 1)) if tr == 0 else 0
         good = [r for r in rs if r['dev'] == '{}']
         res = dict(config='design_words', tag='design', trace='', lines=0, viol=[], is_ref=False, kind='design', wall=0, run_wall=0, script='',
                    stats=dict(ops=0, execs=0, drift=0, skipped=0),
                    mc=dict(states=sum(r['states'] for r in good), transitions=sum(r['generated'] for r in good),
                            model=dict(module='SmallVecWords', N=ns, KMax=kmax), params=dict(Dev='{}'), ops={},
                            sample_walk=[dict(note='refinement DecodeOK /\\ Contract holds on every reachable state; with Dev={"F01"} and Dev={"F07"} TLC finds the counterexample',
-                                             counterexamples_found=[(r['n'], r['dev']) for r in rs if r['dev'] != '{}' and r['violated']])]))
+                                             counterexamples_found=[(r['n'], r['dev']) for r in rs if r['dev'] != '{}' and r['violated']]),
+                                        dict(note='SlotsTheorem (shifting helpers, both trait variants, every size / position / count / throw index) holds; '
+                                                  'refuted by TLC for Dev={"F09"} and Dev={"shiftLeftTrait"}', instances=ninst, MaxSz=msz, MaxCount=mcnt)]))
+        res['mc']['transitions'] += ninst
         return dict(results=[res])
     return cached_suite('words', tier, seed, compute)
 
 
 SUITE_FN = {}
 PROP_SUITES = {
-    'C01': ['vec'], 'C02': ['vec', 'swap2', 'fault', 'sets', 'setfault'], 'C03': ['sets'], 'C04': ['sets'], 'C05': ['vec', 'sets', 'words'],
-    'C06': ['vec', 'swap2', 'fault', 'sets', 'setfault'], 'C07': ['vec', 'words'], 'C08': ['limit'], 'C09': ['fault', 'setfault'],
+    'C01': ['vec'], 'C02': ['vec', 'swap2', 'fault', 'sets', 'setfault', 'words'], 'C03': ['sets'], 'C04': ['sets'], 'C05': ['vec', 'sets', 'words'],
+    'C06': ['vec', 'swap2', 'fault', 'sets', 'setfault'], 'C07': ['vec', 'words'], 'C08': ['limit'], 'C09': ['fault', 'setfault', 'words'],
     'C10': ['vec'], 'C11': ['sets'], 'C12': ['sets'], 'C13': ['swap2'], 'C14': ['vec', 'swap2', 'sets', 'static'], 'C18': ['vec', 'growth'],
     'C19': ['sets', 'bigsets'], 'C20': ['vec', 'sets', 'readers'], 'C15': ['memalgo'], 'C17': ['static'], 'C16': ['matrix'],
 }
